@@ -77,10 +77,12 @@ class Engine(object):
         self.c('report.%s.%s' % (monitor, kind))
         sr = getattr(self, 'seed_reassigned', None)
         if sr and isinstance(detail, dict): detail = dict(detail, seed_reassigned=sorted(map(list, sr)))
-        fc = getattr(self, 'failed_call_ctx', None)
-        if not fc and getattr(self, 'tainted', None):
-            # a session that keeps running after a failed call changed it: later reports carry that call's context
+        if getattr(self, 'tainted', None):
+            # a session that keeps running after a failed call changed it: later reports carry the context of the FIRST
+            # such call of the session (later failures happen in an already corrupted session)
             fc = dict(getattr(self, 'tainted_ctx', None) or {}, tainted=self.tainted)
+        else:
+            fc = getattr(self, 'failed_call_ctx', None)
         if fc and isinstance(detail, dict) and monitor != 'atomic': detail = dict(detail, after_failed_call=fc)
         if getattr(self, 'failed_flush_continued', False) and isinstance(detail, dict): detail = dict(detail, failed_flush_continued=True)
         sd = getattr(self, 'seed_deleted', None)
@@ -128,6 +130,7 @@ class Engine(object):
         self.seed_reassigned = set()
         self.seed_deleted = set()
         self.failed_flush_continued = False
+        self.tainted = None; self.tainted_ctx = None     # a new session has a fresh cache
         self.rec.tag('s%d' % self.session_no)
         if getattr(self, 'strategy', None) == 'eager':
             # loading strategy 'everything up front': every row and every collection is loaded (prefetch of all
@@ -197,7 +200,8 @@ class Engine(object):
     def _is_seed(self, pobj):
         """pk-only object: known to the session through a foreign key / link row, its own row not loaded"""
         cache = pobj._session_cache_
-        if cache is None or not cache.is_alive or pobj._status_ != 'loaded': return False
+        # a pk-only object stays one after a plain attribute was written to it and flushed (status 'modified' / 'updated')
+        if cache is None or not cache.is_alive or pobj._status_ not in ('loaded', 'modified', 'updated'): return False
         seeds = cache.seeds.get(type(pobj)._pk_attrs_)
         return bool(seeds) and pobj in seeds
 
